@@ -254,6 +254,16 @@ CheatCall(m, f, to, args, retOff, retSize) ==
                    IN IF (d.typ \in {"uint", "int"} /\ sz > NBITS) \/ (d.typ \in {"bytes", "string"} /\ sz > Len(raw))
                       THEN Unmodelled_(m)
                       ELSE [CheatRet(m, f, FreshReturn(d.typ, sz, raw), retOff, retSize) EXCEPT !.noracle = m.noracle + 1]
+         [] d.kind = "freshRange" ->                  \* a fresh value in [min, max] (unsigned): arguments d.n and d.n + 1
+              IF m.noracle >= Len(m.env.oracle) THEN Unmodelled_(m)
+              ELSE LET lo == ArgWord(args, d.n)
+                       hi == ArgWord(args, d.n + 1)
+                       raw == m.env.oracle[m.noracle + 1]
+                       w == Sl(raw, Len(raw) - WB, WB)
+                   IN IF WLt(hi, lo) THEN Unmodelled_(m)
+                      \* the environment's choice lies outside the range: not an admissible behaviour (as for assume(false))
+                      ELSE IF WLt(w, lo) \/ WLt(hi, w) THEN [m EXCEPT !.status = "discard"]
+                      ELSE [CheatRet(m, f, w, retOff, retSize) EXCEPT !.noracle = m.noracle + 1]
          [] OTHER -> Unmodelled_(m)
 
 \* f: current frame, already advanced past the call instruction with its operands popped and the
